@@ -359,3 +359,6 @@ def parent_checks(tier, seed):
             "samples": samples,
             "evidence": {"cross_process": {"programs": len(cases), "configurations": [list(c) for c in configs],
                                            "child_runs": len(cases) * len(configs)}}}
+
+
+RULE = RULE + " " + 'Later additions: during the pause the event list, the clock and every statistic are read; fast vs slow STOP listener with the user polling run_state and resuming by step() then start(); prior activity includes the stream administration of another experiment; the seed table may be the one a StreamSeedInformation holds.'
